@@ -194,6 +194,45 @@ def eval_protection(prog) -> dict:
 
 
 
+def _unit_step(n) -> int:
+    """+1 / -1 for `x += 1`, `x -= 1`, `x = x + 1`, `x = x - 1`, `x += -1`; 0 otherwise."""
+    def const(e):
+        if isinstance(e, ast.Constant) and isinstance(e.value, int):
+            return e.value
+        if isinstance(e, ast.UnaryOp) and isinstance(e.op, ast.USub) and isinstance(e.operand, ast.Constant):
+            return -e.operand.value
+        return None
+    if isinstance(n, ast.AugAssign) and isinstance(n.op, (ast.Add, ast.Sub)) and const(n.value) is not None:
+        k = const(n.value) * (1 if isinstance(n.op, ast.Add) else -1)
+        return k if k in (1, -1) else 0
+    if isinstance(n, ast.Assign) and len(n.targets) == 1 and isinstance(n.value, ast.BinOp) and isinstance(n.value.op, (ast.Add, ast.Sub)):
+        t = text(n.targets[0])
+        a, b = n.value.left, n.value.right
+        if text(a) == t and const(b) is not None:
+            k = const(b) * (1 if isinstance(n.value.op, ast.Add) else -1)
+            return k if k in (1, -1) else 0
+        if text(b) == t and const(a) == 1 and isinstance(n.value.op, ast.Add):
+            return 1
+    return 0
+
+
+def _setter_clamps(setter) -> bool:
+    """The indent setter interpreted for a few values: stores max(0, value)."""
+    from ..minieval import Evaluator, Obj
+    try:
+        for v in (-5, -1, 0, 1, 7):
+            me = Obj("PreProcessors", _indent=3)
+            ev = Evaluator({})
+            ev.invoke(setter.node, [me, v], {})
+            stored = [x for k, x in me.__dict__.items() if k not in ("_cls",) and isinstance(x, int)]
+            if stored != [max(0, v)]:
+                return False
+        return True
+    except (Unsupported, LookupError, TypeError, ValueError, AttributeError):
+        return False
+
+
+
 def _file_init_observed(prog, fi) -> bool:
     """File.__init__ interpreted on stub paths: basename / name / type are the last path component and its split."""
     import os.path
@@ -414,8 +453,8 @@ def check(run, prog):
            "context.protected is written outside CheckPreprocessorProtection: " + ", ".join(f.key for f, _ in wr["protected"]), None)
     ind = [(f, n) for f, n in wr["indent"] if f.cls is not None and f.cls.name == "IsPreprocessorStatement"]
     other = [(f, n) for f, n in wr["indent"] if (f, n) not in ind and not (f.cls is not None and f.cls.name == "PreProcessors")]
-    ups = sorted(f.name for f, n in ind if isinstance(n, ast.AugAssign) and isinstance(n.op, ast.Add) and text(n.value) == "1")
-    downs = sorted(f.name for f, n in ind if isinstance(n, ast.AugAssign) and isinstance(n.op, ast.Sub) and text(n.value) == "1")
+    ups = sorted(f.name for f, n in ind if _unit_step(n) == 1)
+    downs = sorted(f.name for f, n in ind if _unit_step(n) == -1)
     run.ob("R-14.4", "context.py::PreProcessors::indent-writers", not other and ups == ["check_if", "check_ifdef", "check_ifndef"]
            and downs == ["check_endif"] and len(ind) == 4,
            f"preproc.indent: +1 in {ups}, -1 in {downs}, other writers {[f.key for f, _ in other]}; expected +1 in "
@@ -423,6 +462,8 @@ def check(run, prog):
     setter = [f for f in prog.fns if f.cls is not None and f.cls.name == "PreProcessors" and f.name == "indent"
               and any("setter" in d for d in f.decorators)]
     ok = len(setter) == 1 and any(isinstance(n, ast.Assign) and text(n.value) in ("max(0, value)", "max(value, 0)") for n in walk_fn(setter[0].node))
+    if len(setter) == 1 and not ok:
+        ok = _setter_clamps(setter[0])
     run.ob("R-14.4", "context.py::PreProcessors.indent::clamped", ok, "the conditional depth is not clamped at 0", setter[0].node if setter else None)
     okm = wr["macros"] and all(f.key == "rules/is_preprocessor_statement.py::IsPreprocessorStatement.check_define" for f, _ in wr["macros"])
     run.ob("R-14.4", "context.py::PreProcessors::macros-writers", bool(okm),
